@@ -9,7 +9,7 @@ SYSTEMS = {1: "NPM", 2: "Maven", 3: "PyPI"}   # values of the API's System enum;
 def histories(h, tier):
     # each step: (package, version, deleted, number of requirements)
     if tier == "quick":
-        steps = [(0, 0, 0, 1), (0, 1, 0, 0), (1, 0, 1, 0), (0, 2, 0, 2), (0, 0, 0, 2), (0, 4, 0, 0), (0, 0, 1, 2)]  # the last: a deleted-flagged addition of a key used by others
+        steps = [(0, 0, 0, 0), (0, 0, 0, 1), (0, 1, 0, 0), (1, 0, 1, 0), (0, 2, 0, 2), (0, 0, 0, 2), (0, 4, 0, 0), (0, 0, 1, 2)]  # the last: a deleted-flagged addition of a key used by others
     else:
         steps = [(p, v, d, n) for p in (0, 1) for v in (0, 1, 2, 3, 4) for d in (0, 1) for n in (0, 1, 2)]
     return itertools.product(steps, repeat=h)
@@ -30,7 +30,10 @@ def run(tier):
                 p = {"sys": sys, "h": h}
                 for i, (pp, v, d, n) in enumerate(hh):
                     p.update({"s%dp" % i: pp, "s%dv" % i: v, "s%dd" % i: d, "s%dn" % i: n})
+                # every other history that adds some key twice also queries the client between the additions
+                keys = [(pp, v) for (pp, v, d, n) in hh]
+                p["midq"] = 1 if len(set(keys)) < len(keys) and len(jobs) % 2 else 0
                 jobs.append(dict(base, harness="VerifC14History", params=p))
     return run_property("C14", tier, [Group("resolve", jobs)], required_covers=["added version looked up", "latest-tagged version among several"],
-                        assumptions=["keys of each AddVersion call are concrete job parameters (versions 1.0.0, 1.1.0, 2.0.0-a, 0.9.0 and the unparsable foo); the blocked flag, the tag (none, latest, other) and requirement types are symbolic", "npm listings in which several versions carry the latest tag, or a latest-tagged prerelease meets only unparsable versions, are not judged for order"],
+                        assumptions=["in half of the histories that add a key twice the client is also queried (MatchingVersions, Versions, Requirements) between the additions", "keys of each AddVersion call are concrete job parameters (versions 1.0.0, 1.1.0, 2.0.0-a, 0.9.0 and the unparsable foo); the blocked flag, the tag (none, latest, other) and requirement types are symbolic", "npm listings in which several versions carry the latest tag, or a latest-tagged prerelease meets only unparsable versions, are not judged for order"],
                         bounds={"history_len": max(hs), "packages": 3, "versions": 5})
